@@ -107,3 +107,23 @@ CLAIMED['C19'] = (
     'checkWFU oracles.',
     NOTE_COMMON + 'rename_gate and replace_subcircuit theorems not proved yet (partial).',
     'Lean 4 proof (fold invariant for replace_inputs, field characterisation for remove_gate) + exact correspondence')
+CLAIMED['C10'] = (
+    'DESIGN.md 5/C10',
+    'Theorems (all circuits, connector choices incl. internal and repeated base gates, name/prefix options, all assignments): the '
+    'frame lemma for add_gate and, through the loop invariant of the modelled connect_circuit, every left connection (connect_left, '
+    'extend_circuit, add_circuit) only adds gates and leaves the value of every base gate unchanged. The whole of connect_circuit '
+    '(both directions, wrappers, interface recomputation, block creation) is modelled one-to-one and compared with the code field by '
+    'field incl. repeated composition; the implementation is checked on every generated pair against the composed evaluation of the '
+    'two operands on all assignments, the documented interface, checkWFU and block extraction.',
+    NOTE_COMMON + 'Function of the attached gates, interface lists, right-connect and block extraction are not proved yet (partial); '
+    '"attached circuit not modified" is correspondence-only.',
+    'Lean 4 proof (frame lemma + loop invariant over the modelled connect loop) + field-exact correspondence and composed-evaluation oracle')
+CLAIMED['C13'] = (
+    'DESIGN.md 5/C13',
+    'Theorems: the comparison stage for any m>=1 (XOR pairs + OR for m>=2 / buffer for m=1) is True exactly when some pair differs '
+    '(n-ary OR fold); every composition step of the miter keeps the function of gates already present (left-connection frame theorem); '
+    'mismatched shapes give exactly MiterDifferentShapesError. build_miter is modelled as the code composes it and compared exactly; '
+    'the implementation\'s miter is evaluated on all assignments for every pair (single output, shared labels, repeated outputs, outputs '
+    'that are inputs) and its satisfiability checked through the C05 path.',
+    NOTE_COMMON + 'End-to-end miter theorem pending the composition theorem of C10 (partial). Operands unmodified: correspondence-only.',
+    'Lean 4 proof (OR-of-XORs stage, frame theorem) + exact correspondence + exhaustive evaluation oracle')
